@@ -339,7 +339,8 @@ def write_evidence(pid, pm, tier, seed, obs, results, n, traces, violations, kno
                         "solver_queries": r.get("queries"), "solver_s": r.get("solver_s"), "cpu_s": r.get("cpu_s"),
                         "twin": (r.get("twin") or {}).get("verdict")})
     for oid, key, path, reason in violations[:5]:
-        samples.append({"obligation": oid, "verdict": "VIOLATION", "reason": reason, "cex": results[oid].get("cex"), "replay": path})
+        samples.append({"obligation": oid, "verdict": "VIOLATION", "reason": reason,
+                        "cex": (results.get(oid) or (results.get(oid.split("#")[0]) or {}).get("residual") or {}).get("cex"), "replay": path})
     for oid, key, f in knowns[:5]:
         samples.append({"obligation": oid, "verdict": "known-finding", "key": key, "cex": results[oid].get("cex")})
     try:
